@@ -21,6 +21,7 @@ ASSUMPTIONS = ["model arithmetic vf/model/ec.py over Fp / Fp2; cofactors derived
                "polynomials in vf/model/params.py (h1 r = p + 1 - t asserted there; h2 r checked by "
                "annihilating random twist points)"]
 ENGINE = "hypothesis"
+TECHNIQUE = ("property-based testing (Hypothesis) with constructed subgroup, torsion and small-order points against model membership and model cofactor clearing")
 _REQ = ["sub:G1:accept", "sub:G2:accept", "sub:G1:reject:torsion", "sub:G2:reject:torsion",
         "sub:G1:reject:small_order_3", "sub:G1:reject:small_order_11", "sub:G2:reject:small_order_13",
         "sub:G2:reject:small_order_23", "sub:G1:reject:kG+T", "sub:G2:reject:kG+T", "sub:G1:inf", "sub:G2:inf",
